@@ -38,8 +38,18 @@ class Session:
     # -- setup
     def _attach(self):
         from . import attach
-        logging.disable(logging.CRITICAL)
         self.info = attach.install()
+        # logging configuration is an input too: even workers silence the library
+        # completely, odd workers enable DEBUG (into a null handler)
+        self.logmode = os.environ.get('VERIF_LOGMODE') or ('debug' if self.wi % 2 else 'disabled')
+        logging.getLogger().handlers[:] = [logging.NullHandler()]
+        if self.logmode == 'debug':
+            logging.disable(logging.NOTSET)
+            logging.getLogger().setLevel(logging.DEBUG)
+            logging.getLogger('mosromgr').setLevel(logging.DEBUG)
+        else:
+            logging.disable(logging.CRITICAL)
+        self.hist['logging:' + self.logmode] += 1
         import mosromgr.mostypes as mt
         import mosromgr.exc as exc
         self.mt = mt
